@@ -941,10 +941,10 @@ pub fn run_c02(ctx: &Ctx) -> i32 {
     let tier = ctx.tier;
     let plan = Plan {
         cases: fam_for(tier, "C02"),
-        k: tier.pick(2, 3),
+        k: tier.pick(2, 2),
         roles: Roles { u: true, xi: true, p: false, ab: false, xi_moderate: false, xi_ladder: false },
         settings: Settings::FULL,
-        full_product_cap: tier.pick(600, 6000),
+        full_product_cap: tier.pick(600, 3000),
         sector_all_up_to: 4,
         sector_stride: tier.pick(7, 3),
         tropical_routing: true,
